@@ -432,7 +432,10 @@ pub fn run(thorough: bool) -> Outcome {
     // (3) framings: every base under Ethernet / raw / loopback must give the same rendering
     for b in &bases {
         // loopback framing as the analyzers document it: the 4-byte NULL header `1e 00 00 00`
-        for link in [Link::Ethernet, Link::RawIp, Link::Null(0x1e)] {
+        let mut links = vec![Link::Ethernet, Link::RawIp, Link::Null(0x1e)];
+        // Ethernet frames whose MAC addresses another framing would also accept
+        links.extend(pkt::AMBIGUOUS_MACS.iter().map(|(_, m)| Link::EthernetMacs(*m)));
+        for link in links {
             check_frame(&mut total, b, link, false, "framing");
             check_frame(&mut total, b, link, true, "framing");
         }
